@@ -135,10 +135,28 @@ func runParallel(o *hx.Opts, cases []caseIn) []histObs {
 	}
 	outs := make([]histObs, len(cases))
 	var wg sync.WaitGroup
+	// A stub created from NRI_PLUGIN_SOCKET keeps using a descriptor NUMBER it has closed
+	// (and leaves an *os.File for it to the finalizer when that fails): such a history can
+	// close descriptors that are not its own. Each gets a worker process of its own.
+	var shared []int
+	for i, c := range cases {
+		if c.In.Src == "env" {
+			wg.Add(1)
+			go func(i int) {
+				defer wg.Done()
+				dir := filepath.Join(o.Scratch, fmt.Sprintf("e%d", i))
+				if done, how, detail := runWorker(dir, cases, []int{i}, outs); done < 1 {
+					outs[i] = histObs{Worker: how, Detail: detail}
+				}
+			}(i)
+		} else {
+			shared = append(shared, i)
+		}
+	}
 	for wi := 0; wi < nw; wi++ {
 		var idx []int
-		for i := wi; i < len(cases); i += nw {
-			idx = append(idx, i)
+		for k := wi; k < len(shared); k += nw {
+			idx = append(idx, shared[k])
 		}
 		if len(idx) == 0 {
 			continue
@@ -322,9 +340,10 @@ func pattern(p byte, xs ...Op) []Op {
 
 func generate(o *hx.Opts, tot map[int]totals) []caseIn {
 	var cs []caseIn
-	add := func(id, stream string, excluded bool, ops []Op) {
-		cs = append(cs, caseIn{ID: id, In: HistIn{Kind: "hist", Ops: ops, Excluded: excluded, Stream: stream}})
+	addSrc := func(id, stream string, excluded bool, src string, ops []Op) {
+		cs = append(cs, caseIn{ID: id, In: HistIn{Kind: "hist", Ops: ops, Excluded: excluded, Stream: stream, Src: src}})
 	}
+	add := func(id, stream string, excluded bool, ops []Op) { addSrc(id, stream, excluded, "dialer", ops) }
 	pats := []byte{'A', 'B', 'C'}
 
 	// S1: every byte offset of the connect/register/configure/synchronize exchange (and a
@@ -421,6 +440,36 @@ func generate(o *hx.Opts, tot map[int]totals) []caseIn {
 	for i := 0; i < o.N(250, 12000); i++ {
 		add(fmt.Sprintf("rand-%d", i), "random", false, randomHistory(r, t0))
 	}
+
+	// S4: a stub that was handed its first connection (stub.WithConnection): that one is used
+	// without a dial, by whatever the first Start is; afterwards the stub dials like any other
+	for rep := 0; rep < o.N(2, 10); rep++ {
+		for _, nm := range []string{"ok", "ok-lose", "refuse", "cfgErr", "dialFail", "twice", "wait-first"} {
+			for _, p := range pats {
+				addSrc(fmt.Sprintf("given-%s-%c-%d", nm, p, rep), "given", false, "given", pattern(p, firsts[nm]...))
+			}
+		}
+		t := tot[0]
+		for _, k := range []int{0, 17, 18, 30, t.Wr - 1, t.Wr + 5} {
+			addSrc(fmt.Sprintf("given-cut-%d-%d", k, rep), "given", false, "given", pattern(pats[(k+rep)%3], cut("r2p", k, 0)))
+		}
+	}
+	for i := 0; i < o.N(40, 1500); i++ {
+		addSrc(fmt.Sprintf("given-rand-%d", i), "given", false, "given", randomHistory(r, t0))
+	}
+
+	// excluded: a stub created from NRI_PLUGIN_SOCKET (how the runtime launches pre-installed
+	// plugins) has no way to get a fresh connection: single-shot. Recorded, correspondence only.
+	addSrc("env-stop-restart", "excluded-env", true, "env",
+		[]Op{start("ok"), op("dispatch"), op("update"), op("stop"), op("wait"), start("ok"), op("dispatch"), op("wait")})
+	addSrc("env-lose-restart", "excluded-env", true, "env",
+		[]Op{start("ok"), op("wait"), op("lose"), op("await"), start("ok"), start("refuse")})
+	addSrc("env-failed-first", "excluded-env", true, "env",
+		[]Op{start("cfgErr"), op("await"), start("ok"), op("dispatch")})
+	// … and if the process has reused the descriptor number meanwhile, the second Start takes
+	// a socket that is not the stub's into use, gets no answer, and closes it
+	addSrc("env-fd-reused", "excluded-env", true, "env",
+		[]Op{start("ok"), op("stop"), op("await"), op("plant"), start("ok"), op("dispatch")})
 
 	// excluded: the runtime end registers the plugin, then neither configures it nor hangs
 	// up. Outside the property's list of runtime behaviours; recorded, correspondence only.
